@@ -80,6 +80,7 @@ def ordered_call(sq, ty, r, c):
     elif k == 'order_by_expr_nulls': e.call(OS + 'order_by_expr_with_nulls', [r, sq.expr(c[1]), order(c[2]), Adt('NullOrdering', c[3], [])])
     elif k == 'order_field': e.call(OS + 'order_by::<types::ColumnRef>', [r, sq.colref(c[1]), field_order(sq, c[2])])
     elif k == 'order_field_expr': e.call(OS + 'order_by_expr', [r, sq.expr(c[1]), field_order(sq, c[2])])
+    elif k == 'order_field_nulls': e.call(OS + 'order_by_with_nulls::<types::ColumnRef>', [r, sq.colref(c[1]), field_order(sq, c[2]), Adt('NullOrdering', c[3], [])])
     elif k == 'clear_order_by': e.call(OS + 'clear_order_by', [r])
     else: return False
     return True
